@@ -474,9 +474,23 @@ def oracle_history(ops, check_recalc=True, check_methods=True):
     own = {}
     glob = "derivative"
     gens = {}
+    lastread = {}
     for n, op in enumerate(ops):
         out = s.run(op)
         t = op[0]
+        # numbers a quantity has reported by the derivative method stay what they are until THAT quantity is recalculated
+        # (or its method changes): recalculating another result that is built on it does not touch it
+        if t == "recalc":
+            for key in [key for key in lastread if key[0] == op[1]]:
+                lastread.pop(key)
+        elif t in ("set_global", "set_own", "reset_own", "bad_method"):
+            lastread.clear()
+        elif check_recalc and t in ("read_value", "read_error") and out[0] in ("val", "err"):
+            key = (op[1], out[0])
+            if key in lastread and not close(lastread[key], out[1], 1e-13):
+                return "step {} {}: quantity {} reported {} before and {} now although it was not recalculated in between".format(
+                    n, op, op[1], lastread[key], out[1])
+            lastread[key] = out[1]
         # one simulation is kept until recalculation or a change of the sample size
         for k, kind in enumerate(s.kinds):
             if kind == "der":
@@ -536,6 +550,16 @@ def oracle_history(ops, check_recalc=True, check_methods=True):
         if t in ("read_value", "read_error") and out[0] == "gen" and out[1] is None and math.isfinite(out[2]):
             return "step {} {}: the Monte Carlo method is in force for quantity {} and it reports {}, but no simulation is " \
                    "stored for it".format(n, op, op[1], out[2])
+        if check_methods and t == "read_value" and out[0] != "rejected":
+            r = s.objs[op[1]]
+            with warnings.catch_warnings():
+                warnings.simplefilter("ignore")
+                v, e = float(r.value), float(r.error)
+                if math.isfinite(v) and math.isfinite(e) and e >= 0:
+                    shown, ref = str(r), str(q.Measurement(v, e))
+                    if shown.strip() != ref.strip():
+                        return "step {} {}: quantity {} prints as {!r} but reports value {} and uncertainty {} (which print as {!r})".format(
+                            n, op, op[1], shown, v, e, ref)
         if t in ("read_value", "read_error") and out[0] != "rejected":
             again = s.run(op)
             if again != out and not (len(out) == len(again) and out[0] == again[0] and all(
